@@ -15,7 +15,7 @@ EXPLANATION = (
     'Static rules over everything reachable from Assembler.__init__ / assemble_bytecode (model construction, file loading, '
     'both passes, all printers). Decided: C15.1 no set-typed value (set annotations, set()/frozenset() constructions, set '
     'literals and comprehensions, folded *_SET constants, union/intersection results) reaches an order-sensitive consumer '
-    '(for loop, join, list/tuple/sorted-less conversion, next(iter()), pop, enumerate, regex alternation) unless the '
+    '(for loop, join, list/tuple/sorted-less conversion, next(iter()), pop, enumerate, starred or tuple unpacking, regex alternation) unless the '
     'consumer is order-insensitive by an enumerated form (body only aborts or only tests membership; unique-hit-or-abort '
     'search); the include search is order-free (exactly one directory may hold the file); C15.2 no time, random, '
     'environment, id/hash, directory listing or terminal size read on that call tree; C15.3 sorts use total keys on '
@@ -135,6 +135,13 @@ def c15_1(ctx):
                     src, consumer = node.func.value, 'pop'
                 elif f == 'sorted':
                     continue
+            elif isinstance(node, ast.Starred) and isinstance(node.ctx, ast.Load):
+                # `[first, *a_set]`, `(*a_set,)`, `f(*a_set)`: the elements are laid out in the set's iteration order
+                par_ = pm.get(id(node))
+                if isinstance(par_, (ast.List, ast.Tuple)) or (isinstance(par_, ast.Call) and unparse(par_.func) not in ('set', 'frozenset', 'sorted', 'max', 'min', 'sum', 'any', 'all', 'len')):
+                    src, consumer = node.value, 'unpacking'
+            elif isinstance(node, ast.Assign) and isinstance(node.targets[0], (ast.Tuple, ast.List)) and not isinstance(node.value, (ast.Tuple, ast.List)):
+                src, consumer = node.value, 'unpacking'
             if src is None:
                 continue
             if not _is_set_typed(ctx, fn, src):
